@@ -577,5 +577,13 @@ func (lr *limitReader) Read(p []byte) (int, error) {
 	if lr.n < 0 {
 		lr.n = 0
 	}
+	if lr.n == 0 {
+		// The budget is one more than the limit so the message is too big no
+		// matter what r returned. Do not wait for the next call to say so, there
+		// may not be one if r reported the bytes together with io.EOF, as the
+		// flate reader does for a stream ending in a final block.
+		err = fmt.Errorf("read limited at %v bytes", lr.limit.Load())
+		lr.c.writeError(StatusMessageTooBig, err)
+	}
 	return n, err
 }
